@@ -635,7 +635,7 @@ func H_C06_mapKeys() {
 	k := ndInt64("k")
 	vfAssume(k > -1000 && k < 1000)
 	v := ndInt64("v")
-	form := ndChoice("form", 6)
+	form := ndChoice("form", 8)
 	vars := make(VarMap)
 	vars.Set("k", k)
 	var present bool
@@ -658,9 +658,19 @@ func H_C06_mapKeys() {
 	case 4:
 		vars.Set("m", map[int]int64{1: v})
 		src, present = `m[1]`, true // number literals are floats: 1.0 survives
-	default:
+	case 5:
 		vars.Set("m", map[uint16]int64{300: v})
 		src, present = `m[k]`, k == 300
+	case 6:
+		// keys of interface type are looked up as they are
+		vars.Set("m", map[interface{}]int64{2: v, "s": 0})
+		vars.Set("two", 2)
+		src, present = `m[two]`, true
+	default:
+		// float keys: the index is converted as Go converts a constant (0.1 as a float32)
+		vars.Set("m", map[float32]int64{0.1: v})
+		vars.Set("f", 0.1)
+		src, present = `m[f]`, true
 	}
 	var got reflect.Value
 	vars.SetFunc("cap", c04Capture(&got))
